@@ -100,6 +100,16 @@ example : xSearch s7mmcm reqX = some ⟨1, ⟨10, 1⟩, [⟨8, 1⟩, ⟨5, 1⟩]
 def s6dcm : XDev := ((Gen.xilinx.find? (·.1 == "S6DCM:-1")).map (·.2.2)).getD default
 example : xSearch s6dcm ⟨⟨100000000, 1⟩, ⟨0, 1⟩, [⟨⟨123456789, 1⟩, ⟨0, 1⟩, ⟨0, 1⟩⟩]⟩ = none := by decide +kernel
 
+/-! range ends of a helper with its OWN search: the USPMMCM multiplier / CLKOUT0-divider lists are literals inside
+    `USPMMCM.compute_config`; they are regenerated from the source of the tree under test (`c20lib.usp_code_ranges`), so a
+    shortened list changes the table and breaks these kernel checks: both lists run 2.0 … 128.0 in steps of 1/8, and the
+    request that ONLY the last multiplier serves (12.5 MHz in, 800 MHz exactly: VCO 1600 MHz = top of the window) is accepted. -/
+def uspmmcm : XDev := ((Gen.xilinx.find? (·.1 == "USPMMCM:-1")).map (·.2.2)).getD default
+example : uspmmcm.multList.head? = some ⟨1024, 8⟩ ∧ uspmmcm.multList.getLast? = some ⟨16, 8⟩ ∧ uspmmcm.mults.count = 1009 ∧
+    uspmmcm.out0 = some ⟨16, 1025, 1, 8⟩ := by decide +kernel
+example : xSearch uspmmcm ⟨⟨12500000, 1⟩, ⟨0, 1⟩, [⟨⟨800000000, 1⟩, ⟨0, 1⟩, ⟨0, 1⟩⟩]⟩ = some ⟨1, ⟨1024, 8⟩, [⟨16, 8⟩]⟩ := by
+  decide +kernel
+
 /-! ## Lattice ECP5 (`ECP5PLL.compute_config`, tree with the `clkfb is None` and spare-divider fixes) -/
 
 /-- search_sound (requests never exceed the number of outputs: asserted by `create_clkout`). -/
